@@ -42,6 +42,14 @@ Theorem C13_deprecated : forall ws,
   evaluate_is_flush ws = is_flush ws /\ evaluate_or_rank_bits ws = or_rank_bits ws.
 Proof. intros ws. split; reflexivity. Qed.
 
+(* historical: the span-only test of the pinned tree before the repair (fix: commit 85d6770) was refuted by
+   As Ks Qs Ts Ah, a pair of aces reported as a straight *)
+Theorem C13_unrepaired_refuted :
+  let ws := [layout 12 3; layout 11 3; layout 10 3; layout 8 3; layout 12 2] in
+  Hand5 ws /\ is_straight_unrepaired ws = true /\ is_straight_ranks (map rank_of_word ws) = false /\
+  is_straight ws = false.
+Proof. exact unrepaired_refuted. Qed.
+
 (* non-vacuity: 9S 9H 8C 7C 5D is a pair whose ranks span five places: NOT a straight;
    the steel wheel is a wheel, a straight and a flush *)
 Example C13_example :
@@ -55,3 +63,4 @@ Print Assumptions C13_predicates.
 Print Assumptions C13_straight_meaning.
 Print Assumptions C13_category.
 Print Assumptions C13_deprecated.
+Print Assumptions C13_unrepaired_refuted.
